@@ -225,7 +225,11 @@ def adjacent_ranges(rng):
     return t1 + sep(rng) + t2, s1 + s2
 
 def _lit(k, v):
-    return "'%c'" % v if k == "c" else "%d%s" % (v, "h" if k == "h" else "")
+    # (a quote and a backslash need their escape: "'\\'" alone is no char literal - the thorough tier
+    #  met a range ending on the backslash, a false alarm of the generator)
+    if k == "c":
+        return "'\\''" if v == 39 else "'\\\\'" if v == 92 else "'%c'" % v
+    return "%d%s" % (v, "h" if k == "h" else "")
 
 def rich_array(rng, depth=0):
     """an array as the manual's grammar allows it: plain elements of one type; repetitions and
